@@ -187,7 +187,8 @@ class Config:
         return 16 * 1024 * 1024 if self.buf_kb is None else self.buf_kb * 1024
 
     def env(self):
-        e = {"YGM_COMM_ROUTING": self.routing, "YGM_COMM_NUM_IRECVS": self.irecvs,
+        e = {"SIMMPI_SPIN": 300000,        # traffic scenarios are small: that many requests without a blocking MPI call is a spin
+             "YGM_COMM_ROUTING": self.routing, "YGM_COMM_NUM_IRECVS": self.irecvs,
              "YGM_COMM_NUM_ISENDS_WAIT": self.isends_wait, "YGM_COMM_ISSEND_FREQ": self.issend}
         if self.buf_kb is not None:
             e["YGM_COMM_BUFFER_SIZE_KB"] = self.buf_kb
